@@ -339,7 +339,7 @@ def case_dask(ctx, index, rng: random.Random):
 
     rec = ctx.rec
     rec.mon("C17.differential")
-    d = rng.choice([1, 1, 2])
+    d = rng.choice([1, 1, 2, 2, 3])
     n = rng.randint(4, 80)
     wdt = [rng.choice([0.5, 1.0, 2.5]) for _ in range(d)]
     rows = np.array([[rng.choice([0.0, 20.0]) + wdt[ax] * (rng.randint(-15, 15) + rng.choice([0.0, 0.5, rng.random()])) for ax in range(d)] for _ in range(n)])
@@ -353,7 +353,8 @@ def case_dask(ctx, index, rng: random.Random):
         rows[:chunks] = np.nan  # a chunk without a single finite value
         all_nan_chunk = True
     desc = {"d": d, "rows": gen.hexlist(rows.ravel()), "chunks": chunks, "widths": wdt}
-    # any chunk without a single finite row? (a chunk histogram cannot be built from no data: known finding)
+    # any chunk without a single finite row? (was known finding D12, repaired: such chunks contribute an empty histogram; the
+    # mechanism label only classifies the record should it ever come back)
     finite = ~np.isnan(rows).any(axis=1)
     starved = any(not finite[i:i + chunks].any() for i in range(0, n, chunks))
     mech = "adaptive.construct.no_finite_data" if starved else None
@@ -364,7 +365,22 @@ def case_dask(ctx, index, rng: random.Random):
                 if d == 1:
                     got = pdask.h1(da.from_array(rows[:, 0], chunks=chunks), "fixed_width", bin_width=wdt[0], dask_method=rng.choice(["threaded", None]))
                 else:
-                    got = pdask.histogramdd(da.from_array(rows, chunks=(chunks, d)), "fixed_width", bin_width=list(wdt), dask_method=rng.choice(["threaded", None]))
+                    form = rng.choice(["dd", "dd", "h2", "columns"] if d == 2 else ["dd", "h3", "columns"])
+                    desc["form"] = form
+                    if form in ("h2", "columns"):
+                        # coordinate arrays, each chunked in its own way; the row blocks are those of the stacked array
+                        cols = [da.from_array(rows[:, ax].copy(), chunks=(chunks if ax == 0 else rng.randint(1, max(1, n // 2)))) for ax in range(d)]
+                        bounds = np.cumsum((0,) + da.stack(cols, axis=1).chunks[0])
+                        starved = any(not finite[a:b].any() for a, b in zip(bounds[:-1], bounds[1:]))
+                        mech = "adaptive.construct.no_finite_data" if starved else None
+                        if form == "h2":
+                            got = pdask.h2(cols[0], cols[1], "fixed_width", bin_width=list(wdt))
+                        else:
+                            got = pdask.histogramdd(cols, "fixed_width", bin_width=list(wdt))
+                    elif form == "h3":
+                        got = pdask.h3(da.from_array(rows, chunks=(chunks, d)), "fixed_width", bin_width=list(wdt))
+                    else:
+                        got = pdask.histogramdd(da.from_array(rows, chunks=(chunks, d)), "fixed_width", bin_width=list(wdt), dask_method=rng.choice(["threaded", None]))
             if d == 1:
                 ref = physt.h1(rows[:, 0].copy(), "fixed_width", bin_width=wdt[0], adaptive=True)
             else:
